@@ -55,6 +55,9 @@ def atoms_of_cond(f, R, i, truth, out):
             op = {'<': '>=', '<=': '>', '>': '<=', '>=': '<', '==': '!=', '!=': '=='}[op]
         out.append((uncast(R.render(n['ch'][0])), op, uncast(R.render(n['ch'][1])), n['id']))
         return
+    if k == 'CXXMemberCallExpr' and n['callee']['name'] == 'empty' and n['callee'].get('classq', '').startswith('std::') and n.get('obj') is not None:
+        out.append((uncast(R.render(n['obj'])) + '.size', '==' if truth else '!=', '0', n['id']))
+        return
     # bool(x) for an integer x: x != 0
     r = uncast(R.render(i))
     out.append((r, '!=' if truth else '==', '0', i))
@@ -153,6 +156,25 @@ def nonempty_proved(facts, size, need=1):
             if (l == size and r == '1' and op == '!=') or (r == size and l == '1' and op == '!='):
                 return True
     return False
+
+
+def prove_lt_core(prog, f, R, at_node, facts, I, ip, size):
+    """I < size from facts (G1) or as an offset index a - b with b <= a < b + size (G8); returns (idiom, detail) or None"""
+    if lt_proved(facts, I, size):
+        return 'G1', '%s < %s by the enclosing loop / guard' % (I, size)
+    # offset form
+    pos = [(m, c) for m, c in ip.items() if c > 0 and m != ()]
+    neg = [(m, c) for m, c in ip.items() if c < 0 and m != ()]
+    if len(pos) == 1 and len(neg) == 1 and pos[0][1] == 1 and neg[0][1] == -1 and len(pos[0][0]) == 1 and len(neg[0][0]) == 1 and ip.get((), 0) == 0:
+        a, b = pos[0][0][0], neg[0][0][0]
+        ge = any((l == a and op == '>=' and r == b) or (l == b and op == '<=' and r == a) for l, op, r, _ in facts)
+        if ge:
+            for l, op, r, nid2 in facts:
+                if l == a and op == '<':
+                    bn = find_bound_poly(f, R, r, at_node) if r.startswith('local:') else {(r,): 1}
+                    if bn is not None and P.equal(bn, P.add({(b,): 1}, {(size,): 1})):
+                        return 'G8', '%s <= %s < %s + %s' % (b, a, b, size)
+    return None
 
 
 class Site:
@@ -313,6 +335,60 @@ def prove(prog, s, ctx):
     return 'unproved', None, 'unknown site kind'
 
 
+def push_to_callers(prog, s, ctx):
+    """site C[I] in a helper where C and I are expressed in the helper's parameters only: the bound
+    I < C.size must follow, at every call site, from the caller's facts together with the helper's own
+    facts at the site (both rewritten in the caller's terms)"""
+    import codec
+    f = s.f
+    R = ctx.setdefault(('R', f.usr), Renderer(f))
+    C = uncast(R.render(s.cont_node))
+    if not re.match(r'^arg\d+$', C):
+        return None
+    ip = P.poly(f, s.idx_node, R)
+    atoms = {a for m in ip for a in m}
+    if not atoms or not all(re.match(r'^arg\d+(\.size)?$', a) for a in atoms):
+        return None
+    own = facts_at(f, R, s.nid)
+    callers = [(g, cn) for g, cn in prog.callers_of(f.usr) if g.usr != f.usr]
+    if not callers:
+        return None
+    notes = []
+    for g, cn in callers:
+        RG = ctx.setdefault(('R', g.usr), Renderer(g))
+        args = g.call_args(cn)
+        sub = {'arg%d' % k: uncast(RG.render(a)) for k, a in enumerate(args)}
+        subp = {}
+        for k, a in enumerate(args):
+            subp['arg%d' % k] = P.poly(g, a, RG)
+
+        def sp(p_):
+            out = {}
+            for mono, c in p_.items():
+                term = P.const(c)
+                for a in mono:
+                    m = re.match(r'^(arg\d+)(\.size)?$', a)
+                    if m and not m.group(2) and m.group(1) in subp:
+                        term = P.mul(term, subp[m.group(1)])
+                    elif m and m.group(2) and m.group(1) in sub:
+                        term = P.mul(term, {(sub[m.group(1)] + '.size',): 1})
+                    else:
+                        term = P.mul(term, {(a,): 1})
+                out = P.add(out, term)
+            return out
+        ipc = sp(ip)
+        facts = facts_at(g, RG, cn['id'])
+        facts = facts + flag_implications(g, RG, facts)
+        for l, op, r, nid2 in own:
+            facts.append((codec.substitute(l, sub), op, codec.substitute(r, sub), cn['id']))
+        Ic = P.show(ipc) if len(ipc) != 1 else list(ipc.keys())[0][0] if list(ipc.values())[0] == 1 and len(list(ipc.keys())[0]) == 1 else P.show(ipc)
+        got = prove_lt_core(prog, g, RG, cn['id'], facts, Ic, ipc, sub[C] + '.size')
+        if not got:
+            return None
+        notes.append('%s (%s)' % (g.loc(cn['id']), got[0]))
+    return ', '.join(notes)
+
+
 def owner_class(prog, f, cont_node):
     n = f.nodes[f.strip(cont_node, 'all')]
     if n['k'] == 'MemberExpr' and n.get('mk') == 'field':
@@ -454,17 +530,18 @@ def prove_ptr(prog, s, ctx, R, facts):
             size_p = None
             if ba['k'] == 'DeclRefExpr' and ba['decl'].get('dk') == 'local':
                 init = local_init(g, ba['decl']['id'])
-                ni = g.nodes[g.strip(init, 'all')] if init is not None else None
-                if ni is not None and ni['k'] == 'CXXNewExpr' and ni.get('array') and 'arrsize' in ni:
-                    size_p = P.poly(g, ni['arrsize'], RG)
+                import p_c18 as _p18
+                an_ = _p18.as_new(g, init) if init is not None else None
+                if an_ and an_['array'] and an_['size'] is not None:
+                    size_p = an_['size']
             elif ba['k'] == 'DeclRefExpr' and ba['decl'].get('dk') == 'param':
                 continue   # forwarded: checked where g is the callee
             elif ba['k'] == 'MemberExpr' and ba.get('mk') == 'field':
                 import p_c18
                 for h, nid2, rhs in p_c18.field_writes(prog, ba['fclass'], ba['member']):
-                    ni = h.nodes[h.strip(rhs, 'all')] if rhs is not None else None
-                    if ni is not None and ni['k'] == 'CXXNewExpr' and ni.get('array') and 'arrsize' in ni:
-                        size_p = P.poly(h, ni['arrsize'], Renderer(h))
+                    an_ = p_c18.as_new(h, rhs) if rhs is not None else None
+                    if an_ and an_['array'] and an_['size'] is not None:
+                        size_p = an_['size']
             if size_p is None:
                 return 'undecided', None, 'cannot resolve the allocation of the buffer passed at %s' % g.loc(cn['id'])
             d = P.diff_const(size_p, n_p)
@@ -486,11 +563,11 @@ def prove_deref(prog, s, ctx, R):
         import p_c18
         sizes = []
         for h, nid2, rhs in p_c18.field_writes(prog, inner['fclass'], inner['member']):
-            ni = h.nodes[h.strip(rhs, 'all')] if rhs is not None else None
-            if ni is not None and ni['k'] == 'CXXNewExpr' and ni.get('array') and 'arrsize' in ni:
-                sizes.append((h, P.poly(h, ni['arrsize'], Renderer(h))))
+            an_ = p_c18.as_new(h, rhs) if rhs is not None else None
+            if an_ and an_['array'] and an_['size'] is not None:
+                sizes.append((h, an_['size']))
             else:
-                return 'unproved', None, 'buffer member assigned from something other than new[]'
+                return 'undecided', None, 'buffer member assigned from something the rule cannot resolve to new[]'
         # allocation size m + 1 with m initialised to a constant in every constructor
         for h, sp in sizes:
             c = sp.get((), 0)
@@ -556,9 +633,11 @@ def nonempty_by_construction(prog, f, cont_render, at_node):
             continue
         at = []
         atoms_of_cond(f, R, sn['cond'], True, at)
-        if len(at) != 1 or at[0][1] != '==' or at[0][2] != '0':
+        if len(at) != 1 or at[0][1] not in ('==', '!=') or at[0][2] != '0':
             continue
         N = at[0][0]
+        if at[0][1] == '!=':
+            sn = dict(sn, then=sn['else'], **{'else': sn['then']})
 
         def pushes(i):
             return [f.nodes[x] for x in f.descendants(i) if f.nodes[x]['k'] == 'CXXMemberCallExpr' and f.nodes[x]['callee']['name'] in ('push_back', 'emplace_back')
@@ -617,6 +696,12 @@ def rule(prog, res, scope=None, rule_name='index-site'):
         if verdict == 'undecided':
             res.undecided(rule_name, inst, f.loc(s.nid), detail, function=f.sig, expr=key)
             continue
+        if verdict != 'ok' and s.kind == 'sub':
+            pushed = push_to_callers(prog, s, ctx)
+            if pushed:
+                res.ok(rule_name, inst, f.loc(s.nid), 'G4p contract of a helper, established at every call site: ' + pushed, function=f.sig, expr=key + '@%d' % s.nid)
+                per['G4p'] = per.get('G4p', 0) + 1
+                continue
         j = [e for e in inv if e['function'] == f.qname and e['site'] == key]
         if j and invariant_holds(prog, j[0]):
             res.ok(rule_name, inst, f.loc(s.nid), 'justified (spec/invariants.json): ' + j[0]['reason'], function=f.sig, expr=key + '@%d' % s.nid, nontrivial=False)
